@@ -4,7 +4,7 @@ import os
 import random
 import time
 
-from common import (BIN, ToolError, Work, build_harness, cache_get, cache_put, log, seed, sh, tlc, tree_key)
+from common import (cap_diverse, BIN, ToolError, Work, build_harness, cache_get, cache_put, log, seed, sh, tlc, tree_key)
 
 TIERS = {"quick": {"cases": 60, "regs": 150, "race": 90}, "thorough": {"cases": 900, "regs": 400, "race": 1500}}
 
@@ -62,7 +62,7 @@ def server_pipeline(tier):
                 v["event"] = json.loads(lines[v["line"] - 1]) if v["line"] - 1 < len(lines) else {}
                 v["context"] = [json.loads(x) for x in lines[max(0, v["line"] - 25):v["line"]]]
                 viols.append(v)
-        res.update({"cases_total": total, "cases_used": len(cases), "events": events, "runs": runs, "viol": viols[:100],
+        res.update({"cases_total": total, "cases_used": len(cases), "events": events, "runs": runs, "viol": cap_diverse(viols),
                     "n_viol": len(viols), "samples": samples, "wall_s": round(time.time() - t0, 1)})
     finally:
         work.cleanup()
@@ -161,7 +161,7 @@ def fanout_pipeline(tier):
                 raise ToolError("fan-out harness stopped early (%d slow schedules) without a verdict" % summ.get("slow_cases", 0))
         res.update({"schedules_from_model": n_model, "distinct_after_projection": n_distinct, "model_schedules_used": n_used_model,
                     "random_schedules": T["random"], "runs": summ["runs"], "events": summ["events"], "deliveries_checked": items,
-                    "viol": viols[:100], "n_viol": len(viols), "inconclusive": inconclusive[:20], "n_inconclusive": len(inconclusive),
+                    "viol": cap_diverse(viols), "n_viol": len(viols), "inconclusive": inconclusive[:20], "n_inconclusive": len(inconclusive),
                     "sample": [json.loads(x) for x in lines[:14]], "wall_s": round(time.time() - t0, 1)})
         log("[fanout] %d schedules (%d from PubSubGen, %d random) on the real server: %d events, %d deliveries; flagged %d, inconclusive %d" % (
             summ["runs"], n_used_model, T["random"], summ["events"], items, len(viols), len(inconclusive)))
@@ -230,7 +230,7 @@ def shutdown_pipeline(tier):
         hung_ok = sum(1 for x in lines if '"ev":"listen_hung"' in x and '"stalled":true' in x)
         res.update({"cases_total": total, "cases_used": len(cases), "stalled_cases": len(st), "events": summ["events"], "runs": summ["runs"],
                     "listen_returned": returned, "listen_hung_with_a_peer_that_does_not_read": hung_ok,
-                    "viol": viols[:60], "n_viol": len(viols), "inconclusive": r.notes[:10], "n_inconclusive": len(r.notes),
+                    "viol": cap_diverse(viols), "n_viol": len(viols), "inconclusive": r.notes[:10], "n_inconclusive": len(r.notes),
                     "sample": [json.loads(x) for x in lines[:30] if '"ev":"sub_summary"' not in x][:18], "wall_s": round(time.time() - t0, 1)})
         log("[shutdown] ServerLife %d states ok=%s; %d of %d situations built for real (%d with a peer that does not read): listen() returned %d times; flagged %d, inconclusive %d" % (
             m.distinct, m.ok, len(cases), total, len(st), returned, len(viols), len(r.notes)))
@@ -312,7 +312,7 @@ def reqlife_pipeline(tier):
         res.update({"schedules": {"exhaustive_2x2": [len(g1.sched_lines()), len(s1), t1], "exhaustive_successors": [len(g2.sched_lines()), len(s2), t2],
                                   "simulated": [len(g3.sched_lines()), len(s3), t3], "legend": "[generated, used, tagged 'late reply meets a waiting call']"},
                     "runs": summ["runs"], "events": summ["events"], "calls_compared": sum(1 for x in lines if '"ev":"call_ret"' in x),
-                    "viol": viols[:60], "n_viol": len(viols), "inconclusive": r.notes[:20], "n_inconclusive": len(r.notes),
+                    "viol": cap_diverse(viols), "n_viol": len(viols), "inconclusive": r.notes[:20], "n_inconclusive": len(r.notes),
                     "sample": [json.loads(x) for x in lines[:16]], "wall_s": round(time.time() - t0, 1)})
         log("[reqlife] RequestorLife %d states ok=%s; %d schedules on the real client/server: %d events, %d call outcomes compared; flagged %d, notes %d" % (
             m.distinct, m.ok, summ["runs"], summ["events"], res["calls_compared"], len(viols), len(r.notes)))
@@ -384,7 +384,7 @@ def replife_pipeline(tier):
         takeovers = sum(1 for x in lines if '"ev":"result"' in x and '"probe":true' in x)
         res.update({"schedules_distinct": total, "schedules_used": len(scheds), "runs": summ["runs"], "events": summ["events"],
                     "answers_checked": sum(1 for x in lines if '"ev":"result"' in x), "probes_after_changes": takeovers,
-                    "viol": viols[:60], "n_viol": len(viols), "inconclusive": r.notes[:10], "n_inconclusive": len(r.notes),
+                    "viol": cap_diverse(viols), "n_viol": len(viols), "inconclusive": r.notes[:10], "n_inconclusive": len(r.notes),
                     "sample": [json.loads(x) for x in lines[:14]], "wall_s": round(time.time() - t0, 1)})
         log("[replife] ReplierLife %d states ok=%s; %d of %d schedules with real repliers: %d events, %d answers attributed; flagged %d, notes %d" % (
             m.distinct, m.ok, len(scheds), total, summ["events"], res["answers_checked"], len(viols), len(r.notes)))
@@ -465,7 +465,7 @@ def publife_pipeline(tier):
         res.update({"schedules": {"exhaustive": [n_ex, len(ex)], "simulated": [n_sim, len(sim)], "legend": "[generated, used]",
                                   "with_connection_loss": sum(1 for x in scheds if any(st["op"].startswith("cut") for st in x))},
                     "runs": summ["runs"], "events": summ["events"], "deliveries_checked": sum(1 for x in lines if '"ev":"recv"' in x),
-                    "viol": viols[:60], "n_viol": len(viols), "inconclusive": r.notes[:20], "n_inconclusive": len(r.notes),
+                    "viol": cap_diverse(viols), "n_viol": len(viols), "inconclusive": r.notes[:20], "n_inconclusive": len(r.notes),
                     "sample": [json.loads(x) for x in lines[:16]], "wall_s": round(time.time() - t0, 1)})
         log("[publife] PubSubLife %d states ok=%s; %d schedules on the real client/server: %d events, %d deliveries; flagged %d, notes %d" % (
             m.distinct, m.ok, summ["runs"], summ["events"], res["deliveries_checked"], len(viols), len(r.notes)))
